@@ -427,11 +427,16 @@ func (gb *gcpBalancer) getSubConnRoundRobin(ctx context.Context) *subConnRef {
 func (gb *gcpBalancer) bindSubConn(bindKey string, sc balancer.SubConn) {
 	gb.mu.Lock()
 	defer gb.mu.Unlock()
+	scRef, found := gb.scRefs[sc]
+	if !found {
+		// The SubConn is gone (was shut down), nothing to bind to.
+		return
+	}
 	_, ok := gb.affinityMap[bindKey]
 	if !ok {
 		gb.affinityMap[bindKey] = sc
 	}
-	gb.scRefs[sc].affinityIncr()
+	scRef.affinityIncr()
 }
 
 // unbindSubConn removes the existing binding associated with the key.
@@ -440,7 +445,9 @@ func (gb *gcpBalancer) unbindSubConn(boundKey string) {
 	defer gb.mu.Unlock()
 	boundSC, ok := gb.affinityMap[boundKey]
 	if ok {
-		gb.scRefs[boundSC].affinityDecr()
+		if scRef, found := gb.scRefs[boundSC]; found {
+			scRef.affinityDecr()
+		}
 		delete(gb.affinityMap, boundKey)
 	}
 }
